@@ -1056,10 +1056,12 @@ class Vector():
 		""" True if _promote() supports taking a vector of `kind` to `target_kind` """
 		if kind is target_kind:
 			return True
+		if target_kind is int:
+			return kind is bool
 		if target_kind is float:
-			return kind is int
+			return kind in (bool, int)
 		if target_kind is complex:
-			return kind in (int, float)
+			return kind in (bool, int, float)
 		if target_kind is datetime:
 			return kind is date
 		return False
@@ -1079,15 +1081,22 @@ class Vector():
 		if self._dtype.kind is target_kind:
 			return
 		
-		# Allow numeric promotions: int -> float, float -> complex
-		if target_kind is float and self._dtype.kind is int:
+		# Allow numeric promotions along the ladder bool -> int -> float -> complex
+		if target_kind is int and self._dtype.kind is bool:
+			old_tuple_id = id(self._underlying)
+			new_tuple = tuple(int(x) if x is not None else None for x in self._underlying)
+			_ALIAS_TRACKER.unregister(self, old_tuple_id)
+			self._underlying = new_tuple
+			_ALIAS_TRACKER.register(self, id(new_tuple))
+			self._dtype = DataType(int, nullable=self._dtype.nullable)
+		elif target_kind is float and self._dtype.kind in (bool, int):
 			old_tuple_id = id(self._underlying)
 			new_tuple = tuple(float(x) if x is not None else None for x in self._underlying)
 			_ALIAS_TRACKER.unregister(self, old_tuple_id)
 			self._underlying = new_tuple
 			_ALIAS_TRACKER.register(self, id(new_tuple))
 			self._dtype = DataType(float, nullable=self._dtype.nullable)
-		elif target_kind is complex and self._dtype.kind in (int, float):
+		elif target_kind is complex and self._dtype.kind in (bool, int, float):
 			old_tuple_id = id(self._underlying)
 			new_tuple = tuple(complex(x) if x is not None else None for x in self._underlying)
 			_ALIAS_TRACKER.unregister(self, old_tuple_id)
